@@ -161,8 +161,7 @@ class Scope:
         """
         self.__dict__['_parent'] = weakref.ref(parent) if parent is not None else None
 
-        if self.parent is not None:
-            self.symbol_attrs.parent = self.parent.symbol_attrs
+        self.symbol_attrs.parent = None if self.parent is None else self.parent.symbol_attrs
 
     def declare(self, name, dtype, fail=True, **kwargs):
         """
